@@ -9,6 +9,7 @@ import os, json, math
 from fractions import Fraction as F
 from vlib import common as C
 from checks import rectlib as L
+from vlib import c01lib as L01
 
 PID = 'C20'
 PRIMINGS = [(0, 0), (7, 1), (7, 2), (3, 1), (5, 2)]
@@ -204,8 +205,39 @@ def cmd_V(des, ws, cs):
 def parse_V(line):
     if line.startswith('VX'):
         return None
-    a, b = line[2:].split('|')
-    return [L.hexq(x) for x in a.split()], [int(x) for x in b.split()]
+    parts = line[2:].split('|')
+    a, b = parts[0], parts[1]
+    act = [int(x) for x in parts[2].split()] if len(parts) > 2 else None
+    return [L.hexq(x) for x in a.split()], [int(x) for x in b.split()], act
+
+
+def certify_runs(runs):
+    """runs: list of (des, ws, cs, parsed V result).  For every run the extracted, proved checker kkt_ok (Vpsc/KKT.v, driver
+    extract/c01_driver.ml) is evaluated on the optimum supported on the REAL solver's final active forest (multipliers by leaf
+    elimination; the model's forest as fall-back).  Returns a list of exact certified optima (list of Fraction) or None."""
+    ex = L01.tools()
+    os.makedirs(L01.TMP, exist_ok=True)
+    path = os.path.join(L01.TMP, 'c20-cert-%d.drv.txt' % os.getpid())
+    with open(path, 'w') as f:
+        for k, (des, ws, cs, r) in enumerate(runs):
+            ins = {'id': k, 'kind': 'I', 'vs': [(d, w, F(1)) for d, w in zip(des, ws)], 'cs': [(l, rr, g, bool(e)) for l, rr, g, e in cs],
+                   'ops': [('S',)]}
+            reals = []
+            if r is not None and r[2] is not None:
+                reals = [{'op': 0, 'status': 'ok', 'finite': True, 'x': r[0], 'A': ''.join(str(a) for a in r[2]) or '-',
+                          'U': ''.join(str(u) for u in r[1]) or '-'}]
+            f.write(L01.inst_drv_text(ins, reals))
+    rc, out, err, dt = C.sh([ex['drv'], path], timeout=600)
+    try:
+        os.remove(path)
+    except OSError:
+        pass
+    drv = L01.parse_drv(out)
+    certs = []
+    for k in range(len(runs)):
+        c = (drv.get(k) or {}).get('k', {}).get(0)
+        certs.append(c['x'] if c and '!' not in c['src'] else None)
+    return certs, (rc, err[-800:] if rc else ''), dt
 
 
 def part_b(res, rng, exe, n_inst, stats):
@@ -242,9 +274,26 @@ def part_b(res, rng, exe, n_inst, stats):
                        'command': cmds[len(out)] if len(out) < len(cmds) else None})
         return dt
     tol = F(1, 10 ** 9)
+    # per-run certificates (extracted kkt_ok): base run, translated run, permuted run of every instance
+    runs = []
+    for k, (des, ws, cs, cyc, t, perm, corder) in enumerate(meta):
+        o = out[5 * k:5 * k + 5]
+        n = len(des)
+        inv = [0] * n
+        for i, pp in enumerate(perm):
+            inv[pp] = i
+        pdes, pws = [des[inv[j]] for j in range(n)], [ws[inv[j]] for j in range(n)]
+        pcs = [(perm[cs[c][0]], perm[cs[c][1]], cs[c][2], cs[c][3]) for c in corder]
+        runs += [(des, ws, cs, parse_V(o[0])), ([d + t for d in des], ws, cs, parse_V(o[3])), (pdes, pws, pcs, parse_V(o[4]))]
+    certs, cerr, dtc = certify_runs(runs)
+    if cerr[0] != 0:
+        res.violation({'what': 'the certificate driver (extracted kkt_ok) failed on the IncSolver replay runs', 'rc': cerr[0], 'stderr': cerr[1]}, no_input=True)
+    stats['b_cert_time_s'] = round(dtc, 2)
+    ctol = F(1, 10 ** 5)
     for k, (des, ws, cs, cyc, t, perm, corder) in enumerate(meta):
         o = out[5 * k:5 * k + 5]
         first, again, trans, permd = parse_V(o[0]), parse_V(o[2]), parse_V(o[3]), parse_V(o[4])
+        c_first, c_trans, c_perm = certs[3 * k], certs[3 * k + 1], certs[3 * k + 2]
         stats['b_instances'] += 1
         inp = {'desired': [str(d) for d in des], 'weights': [str(w) for w in ws], 'constraints_l_r_gap_eq': [[l, r, str(g), e] for l, r, g, e in cs]}
         if o[0] != o[2]:
@@ -256,6 +305,35 @@ def part_b(res, rng, exe, n_inst, stats):
             continue
         unsat = any(first[1])
         stats['b_unsat'] += unsat
+        if not unsat:
+            # each real result against the kkt_ok-certified (hence unique, C02_kkt_ok_sound) optimum of its own instance
+            sc = max([F(1)] + [abs(d) for d in des] + [abs(g) for _, _, g, _ in cs])
+            for name, cert, real, shift in (('base', c_first, first, F(0)), ('translated', c_trans, trans, t), ('permuted', c_perm, permd, F(0))):
+                if cert is None or real is None or any(real[1]):
+                    stats['b_cert_missing'] += 1
+                    continue
+                stats['b_cert_runs'] += 1
+                if max([abs(a - b) for a, b in zip(cert, real[0])] or [F(0)]) > ctol * sc:
+                    stats['b_cert_real_deviates'] += 1
+                    if stats['b_cert_real_deviates'] <= 3:
+                        res.violation({'what': 'IncSolver (%s run): the result differs from the kkt_ok-certified unique optimum of its instance, so the '
+                                               'runs of the renumbered / translated problem cannot all agree with it' % name,
+                                       'input': inp, 't': str(t), 'variable_permutation': perm, 'constraint_order': corder,
+                                       'result': [float(x - shift) for x in real[0]], 'certified_optimum': [float(x - shift) for x in cert],
+                                       'replay': 'printf "%s\\n" | build/bin/c20_replay-plain-*' % cmds[5 * k + {'base': 0, 'translated': 3, 'permuted': 4}[name]]})
+            # the theorems' conclusions on the exact certified optima (cannot fail unless the machinery is wrong)
+            if c_first is not None and c_perm is not None:
+                stats['b_permute_certified_pairs'] += 1
+                if any(c_perm[perm[i]] != c_first[i] for i in range(len(des))):
+                    res.violation({'what': 'MACHINERY: two kkt_ok-certified optima of a problem and its renumbering disagree, contradicting the Coq theorem '
+                                           'C20_vpsc_permute_checked', 'input': inp, 'variable_permutation': perm, 'constraint_order': corder,
+                                   'certified': [str(x) for x in c_first], 'certified_permuted': [str(x) for x in c_perm]}, no_input=True)
+            if c_first is not None and c_trans is not None:
+                stats['b_translate_certified_pairs'] += 1
+                if any(c_trans[i] != c_first[i] + t for i in range(len(des))):
+                    res.violation({'what': 'MACHINERY: the kkt_ok-certified optimum of the translated problem is not the translated certified optimum, '
+                                           'contradicting the Coq theorem C20_vpsc_translate_checked', 'input': inp, 't': str(t),
+                                   'certified': [str(x) for x in c_first], 'certified_translated': [str(x) for x in c_trans]}, no_input=True)
         if trans is None or trans[1] != first[1] or any(abs((b - t) - a) > tol for a, b in zip(first[0], trans[0])):
             if not unsat:
                 res.violation({'what': 'IncSolver: adding t to every desired position does not add t to every result (1e-9) / changes the flags',
@@ -450,7 +528,8 @@ def run(tier):
     exe = C.build_harness('c20_replay', ['libvpsc', 'libavoid'], 'plain', extra_srcs=[os.path.join(C.COLA, 'libcola', 'pseudorandom.cpp')])
     stats = {k: 0 for k in ('a_groups', 'a_runs', 'a_differ', 'a_prime_not_verified', 'b_instances', 'b_threw', 'b_unsat', 'b_translate_ok',
                             'b_translate_bit_exact', 'b_unsat_translate_differs', 'b_permute_ok', 'c_scenes', 'c_orthogonal', 'c_threw',
-                            'c_translate_ok', 'c_cost_comparisons', 'p_streams', 'a_translated', 'a_dupid_groups', 'a_dupid_differ', 'b_permute_differs')}
+                            'c_translate_ok', 'c_cost_comparisons', 'p_streams', 'a_translated', 'a_dupid_groups', 'a_dupid_differ', 'b_permute_differs', 'b_cert_runs', 'b_cert_missing', 'b_cert_real_deviates',
+                            'b_permute_certified_pairs', 'b_translate_certified_pairs', 'b_cert_time_s')}
     ta = part_a(res, rng.fork(), exe_r, drv, 1500 if thorough else 400, stats)
     tb = part_b(res, rng.fork(), exe, 6000 if thorough else 1500, stats)
     tc = part_c(res, rng.fork(), exe, 1200 if thorough else 250, stats)
@@ -490,13 +569,23 @@ META = {
                 'replayed on the real code by allocator priming); with the repaired CmpNodePos (centre, Variable::id, address) and pairwise distinct '
                 'ids they are independent of it outright (scanline_deterministic); translating all rectangles changes nothing (scanline_translate). '
                 'libavoid predicates vecDir / segmentIntersect as regenerated by cpp2v: invariant under translation and under the 8 symmetries of '
-                'the square with the orientation sign tracked. PseudoRandom: explicit LCG recurrence. NOT proved: vpsc_translate / vpsc_permute over '
-                'the IncSolver model and route-cost invariance of the router; these are covered by replay runs only.',
+                'the square with the orientation sign tracked. PseudoRandom: explicit LCG recurrence. VPSC: vpsc_permute (Vpsc/VpscSymmetry.v, from KKT '
+                'uniqueness, every n, m, weights > 0, any scales: certified optima of a problem and of any renumbering of its variables / reordering of '
+                'its constraints agree up to the renumbering; executable form C20_vpsc_permute_checked for the extracted certificate checker kkt_ok, which '
+                'part (b) evaluates on every base / translated / permuted real run); vpsc_translate declaratively (scale-1: optimum, multipliers and '
+                'feasibility translate) and over the executable IncSolver model (Vpsc/VpscTranslate.v, C20_vpsc_translate_model: solve() on the translated '
+                'instance ends the same way and in a state with identical blocks, active set, flags, multipliers and every position translated by t; also '
+                'for satisfy() and whole op histories). PARTIAL: that IncSolver::solve always reaches a certified optimum is decided per run by the '
+                'certificate (as in C02), not proved; route-cost invariance of the router is covered by replay runs only.',
         'design_ref': 'DESIGN.md 5.20'},
     'level_note': 'Trusted: Coq kernel; cpp2v.py + clang JSON AST for Gen/Geometry.v; the hand-written models Rect/ScanlineModel.v, Rect/RectBase.v, '
                   'Cola/PseudoRandomModel.v (validated by exact correspondence on every run, not derived from the source); extraction (ExtrOcamlBasic) and '
-                  'the OCaml/C++ drivers; glibc malloc behaviour used for the priming (verified at run time). Replay-only (validation, not proof): IncSolver '
-                  'twice / translated (1e-9; bit-exact is not claimed because block positions are weighted means) / permuted; libavoid routes twice, '
+                  'the OCaml/C++ drivers (the optimum-proposing helper of extract/c01_driver.ml is unverified; every proposal passes the proved kkt_ok); the '
+                  'hand-written IncSolver model Vpsc/VpscModel.v (tied by the C01 correspondence); glibc malloc behaviour used for the priming (verified at '
+                  'run time). IncSolver replay: same problem twice (bit-identical), translated (1e-9; bit-exact is not claimed because block positions are '
+                  'weighted means), permuted - each real result is compared with the kkt_ok-certified optimum of its own instance (1e-5 * scale) and the '
+                  'certified optima are compared exactly with each other, so agreement of the permuted / translated runs is a consequence of '
+                  'C20_vpsc_permute_checked / C20_vpsc_translate_checked plus the per-run certificates. Replay-only (validation, not proof): libavoid routes twice, '
                   'translated exactly, cost under the 8 symmetries and under permuted insertion order, on separated integer rectangles. Residual of F-d, '
                   'exhibited on every run and registered as known finding scanline_addr_tiebreak_dup_ids: CmpNodePos still falls back to the address when two Variables share an id (legal input; callers in /repo use distinct ids). Dependence on '
                   'uninitialised memory can only be observed, not proved absent.',
